@@ -632,6 +632,52 @@ func lid(s string) string {
 
 func ind(n int) string { return strings.Repeat("  ", n) }
 
+// scopedDeclLive reports an error when a branch of the if/switch statement s declares a name (":=", var)
+// that the statements after s mention: in Go that declaration ends with its block, in the translation the
+// continuation is appended inside the branch and would see it.
+func scopedDeclLive(s ast.Stmt, rest []ast.Stmt) error {
+	declared := map[string]bool{}
+	ast.Inspect(s, func(n ast.Node) bool {
+		switch n := n.(type) {
+		case *ast.AssignStmt:
+			if n.Tok == token.DEFINE {
+				for _, l := range n.Lhs {
+					if id, ok := l.(*ast.Ident); ok && id.Name != "_" {
+						declared[id.Name] = true
+					}
+				}
+			}
+		case *ast.DeclStmt:
+			if gd, ok := n.Decl.(*ast.GenDecl); ok {
+				for _, sp := range gd.Specs {
+					if vs, ok := sp.(*ast.ValueSpec); ok {
+						for _, id := range vs.Names {
+							declared[id.Name] = true
+						}
+					}
+				}
+			}
+		}
+		return true
+	})
+	if len(declared) == 0 {
+		return nil
+	}
+	var bad string
+	for _, r := range rest {
+		ast.Inspect(r, func(n ast.Node) bool {
+			if id, ok := n.(*ast.Ident); ok && declared[id.Name] && bad == "" {
+				bad = id.Name
+			}
+			return bad == ""
+		})
+	}
+	if bad != "" {
+		return fmt.Errorf("name %q is declared inside a branch and mentioned after it (block scoping not translated)", bad)
+	}
+	return nil
+}
+
 // stmts translates a statement list in continuation-passing style: the
 // statements after an if/switch are duplicated into every branch that does
 // not return.
@@ -739,6 +785,11 @@ func (t *tr) stmts(list []ast.Stmt, stores []string, d int) (string, error) {
 		if s.Init != nil {
 			return "", fmt.Errorf("if with init unsupported")
 		}
+		// The continuation is duplicated into both branches, so a name DECLARED inside a branch (":=" or
+		// var: a new, block-scoped variable in Go) would wrongly stay visible in the continuation.
+		if err := scopedDeclLive(s, rest); err != nil {
+			return "", err
+		}
 		c, err := t.expr(s.Cond)
 		if err != nil {
 			return "", err
@@ -763,6 +814,9 @@ func (t *tr) stmts(list []ast.Stmt, stores []string, d int) (string, error) {
 	case *ast.SwitchStmt:
 		if s.Init != nil {
 			return "", fmt.Errorf("switch with init unsupported")
+		}
+		if err := scopedDeclLive(s, rest); err != nil {
+			return "", err
 		}
 		var tag string
 		if s.Tag != nil {
